@@ -59,9 +59,17 @@ def run(ctx):
                 ctx.violation('F-FLOAT.impl', path, 'reaches %r, expected exactly [%s]' % (codec, want), mir.loc(inst['sp']))
     # narrowing float casts anywhere in decode paths
     ctx.rules_run.append('F-FLOAT.cast: no narrowing FloatToFloat cast and no float arithmetic in minicbor')
+    float_census(ctx, prog, 'minicbor')
+    if not load.ALIAS:
+        from . import controls
+        controls.run(ctx, ('F-FLOAT',))
+    return 'Float plumbing: encoder streams, decoder accept/value tables and cast census decided from MIR; IEEE correctness of the half crate is trusted.'
+
+
+def float_census(ctx, prog, krate):
     n = 0
     for inst in prog.insts.values():
-        if inst['krate'] != 'minicbor':
+        if inst['krate'] != krate:
             continue
         for bi, si, s in mir.iter_stmts(inst['body']):
             if s['k'] != 'assign':
@@ -81,4 +89,3 @@ def run(ctx):
                 if lt.get('k', '').startswith('float'):
                     ctx.violation('F-FLOAT.arith', inst['path'], 'float arithmetic (%s) in the codec' % r['op'], mir.loc(s.get('sp')))
     ctx.count('F-FLOAT.casts_seen', n)
-    return 'Float plumbing: encoder streams, decoder accept/value tables and cast census decided from MIR; IEEE correctness of the half crate is trusted.'
